@@ -48,8 +48,8 @@ KEEP_PER_SIGNATURE = 3
 CFG = {
     "quick": [("PointsQuick.cfg", 0, None), ("Curve2Quick.cfg", 2, None), ("CurveQuick.cfg", 2, None),
               ("SurfaceQuick.cfg", 3, None)],
-    "thorough": [("PointsThorough.cfg", 0, None), ("Curve2Quick.cfg", 2, None), ("CurveThorough.cfg", 2, None),
-                 ("Curve4Thorough.cfg", 2, None),
+    "thorough": [("PointsThorough.cfg", 0, None), ("Curve2Quick.cfg", 2, None), ("CurveThorough.cfg", 2, 12000),
+                 ("Curve4Thorough.cfg", 2, None), ("CurveIx3Thorough.cfg", 2, None),
                  ("CurveOrientThorough.cfg", 2, None), ("SurfaceThorough.cfg", 3, None),
                  ("SurfaceOrientThorough.cfg", 3, None)],
 }
@@ -260,10 +260,8 @@ class Runner:
         self.arity = item["arity"]
         self.cls = getattr(objects, CLASSES[self.arity])
         self.kinds = item["kinds"]
-        # how the call is made (not what it means) rotates over the paths: indices as list / ndarray,
-        # clear_cache off / on
+        # how the call is made (not what it means) alternates over the paths: indices as list / ndarray
         self.as_array = bool(item.get("pid", 0) % 2)
-        self.clear_cache = bool((item.get("pid", 0) // 2) % 2)
         self.Workspace = Workspace
         self.path = os.path.join(scratch(), f"c07_{os.getpid()}_{item.get('pid', 0)}.geoh5")
         if os.path.exists(self.path):
@@ -310,9 +308,9 @@ class Runner:
                 name = f"d{lab['name']}"
                 self._child(name).values = concrete(lab["vals"], self.kinds[name])
             elif act == "RemoveVertices":
-                self.obj.remove_vertices(self._index(lab["ix"]), clear_cache=self.clear_cache)
+                self.obj.remove_vertices(self._index(lab["ix"]), clear_cache=bool(lab.get("clear", False)))
             elif act == "RemoveCells":
-                self.obj.remove_cells(self._index(lab["ix"]), clear_cache=self.clear_cache)
+                self.obj.remove_cells(self._index(lab["ix"]), clear_cache=bool(lab.get("clear", False)))
             elif act == "MaskedCopy":
                 source = self.obj
                 new = self.obj.copy(mask=np.array(lab["mask"], dtype=bool))
@@ -393,13 +391,12 @@ class Runner:
             if src is not None and kind is None and difference(src, pre_ns, self.arity) is not None:
                 kind = "source-modified"
             if kind is not None:
-                dev = None
-                for d in lab["devs"]:
-                    if (d["out"] == "ok") == (out == "ok") and ns_from_spec(d["st"], self.kinds) == obs:
-                        dev = d["name"]
-                        break
+                # the smallest set of named deviations whose prediction is exactly what geoh5py did
+                hits = [sorted(d["name"]) for d in lab["devs"]
+                        if (d["out"] == "ok") == (out == "ok") and ns_from_spec(d["st"], self.kinds) == obs]
+                dev = "+".join(min(hits, key=lambda h: (len(h), h))) if hits else None
                 text = (f"{CLASSES[self.arity]} step {n}: {lab['act']} name={lab['name']} assoc={lab['assoc']} k={lab['k']} "
-                        f"ix={lab['ix']} mask={lab['mask']} on {_short(cur)}: specified {lab['out']} -> {_short(post)}; "
+                        f"ix={lab['ix']} clear={lab.get('clear')} mask={lab['mask']} on {_short(cur)}: specified {lab['out']} -> {_short(post)}; "
                         f"geoh5py {out} -> {_short(obs)}")
                 if dev is not None and kind == "valid-op-fails":
                     # known as-built refusal that leaves everything consistent: the property does not oblige
@@ -518,7 +515,7 @@ def run(tier, seed):
         exhaustive = exhaustive and full
         for _, _, lab in g.edges:
             for d in lab["devs"]:
-                predicted[d["name"]] += 1
+                predicted["+".join(sorted(d["name"]))] += 1
         t0 = time.time()
         global _ITEMS  # pylint: disable=global-statement
         _ITEMS = items
@@ -543,8 +540,8 @@ def run(tier, seed):
             raise MachineryError(f"negative control {cfg}: expected {inv} to be violated, got {r.violated}")
         neg.append(f"{cfg}: {inv} violated")
     # vacuity: every operation in both outcomes, every deviation predicted somewhere
-    needed = [f"act:{a}:{o}" for a in ("AddData", "SetValues", "RemoveVertices", "RemoveCells", "MaskedCopy", "CellMaskedCopy")
-              for o in ("ok", "refused")] + ["act:Reopen:ok"]
+    needed = [f"act:{a}:{o}" for a in ("AddData", "SetValues", "RemoveVertices", "RemoveCells", "MaskedCopy")
+              for o in ("ok", "refused")] + ["act:Reopen:ok", "act:CellMaskedCopy:ok"]
     missing = [k for k in needed if not stats.get(k)]
     if missing:
         raise MachineryError(f"never exercised: {missing}")
@@ -577,8 +574,8 @@ def run(tier, seed):
             "index sequences of length <=2/3, TLC depth 3/4; replayed paths walk up to 10 operations)",
             "data kinds FLOAT, INTEGER, BOOLEAN rotate over the paths; TEXT data are not modelled",
             "a failing operation is required to leave a consistent, value-preserving state, not the pre-state",
-            "non-negative indices only; copies stay in the same workspace; indices as list/ndarray and "
-            "clear_cache False/True alternate over the paths",
+            "non-negative indices only; copies stay in the same workspace; clear_cache=True only with single-index "
+            "removals; indices are passed as list / ndarray alternately",
         ],
     }
 
